@@ -131,7 +131,7 @@ func (V *Verifier) frameCheck(fn *ssa.Function) []frameFinding {
 							continue
 						}
 						if loc, has := located[k]; has {
-							if p, isP := root.(*ssa.Parameter); isP && paramName(p) == loc {
+							if p, isP := root.(*ssa.Parameter); isP && locMentions(loc, paramName(p)) {
 								continue
 							}
 						}
@@ -224,7 +224,7 @@ func (V *Verifier) frameCheck(fn *ssa.Function) []frameFinding {
 									r := rootOf(args[i])
 									if V.isFreshRoot(r, map[ssa.Value]bool{}) {
 										matched = true
-									} else if p, isP := r.(*ssa.Parameter); isP && located[k] == paramName(p) && located[k] != "" {
+									} else if p, isP := r.(*ssa.Parameter); isP && located[k] != "" && locMentions(located[k], paramName(p)) {
 										matched = true
 									}
 								}
